@@ -22,7 +22,7 @@ fn everything_net(rng: &mut Rng) -> NetCfg {
     // more input channels than it has filters
     let c = rng.range(1, 4);
     let (h, w) = (rng.range(3, 4), rng.range(3, 4));
-    let act = |rng: &mut Rng| *rng.pick(&[Act::Tanh, Act::Sigmoid, Act::Leaky, Act::Relu]);
+    let act = |rng: &mut Rng| *rng.pick(&[Act::Tanh, Act::Sigmoid, Act::Leaky, Act::Relu, Act::Tanh, Act::Softmax]);
     let drop = |rng: &mut Rng| if rng.chance(0.4) { Some(0.5f32) } else { None };
     let n = rng.range(3, 6);
     let layers = vec![
@@ -55,12 +55,20 @@ fn everything_net(rng: &mut Rng) -> NetCfg {
 /// and paddings 0..2 chosen per layer: consecutive layers often work on scratch tensors of the
 /// same shape with different margins (what a per-thread reused buffer would get wrong).
 pub fn stack_net(rng: &mut Rng) -> NetCfg {
+    stack_net_with(rng, false)
+}
+
+/// `softmax`: soft-max and linear are among the activations (C05 only: the value oracle of C02
+/// cannot judge max-pool windows over the tiny, nearly tied values a soft-max layer leaves).
+pub fn stack_net_with(rng: &mut Rng, softmax: bool) -> NetCfg {
     // the channel count changes from layer to layer (1..5): layers with more input channels than
     // filters, as many, and fewer
     let c = rng.range(1, 5);
     let (mut h, mut w) = (rng.range(3, 5), rng.range(3, 5));
     let input = Sh::Sp(c, h, w);
-    let act = |rng: &mut Rng| *rng.pick(&[Act::Tanh, Act::Sigmoid, Act::Leaky, Act::Relu]);
+    // (soft-max normalises over the whole tensor of a layer: every filter's map depends on all
+    // the others)
+    let act = |rng: &mut Rng| if softmax { *rng.pick(&[Act::Tanh, Act::Sigmoid, Act::Leaky, Act::Relu, Act::Softmax, Act::Linear]) } else { *rng.pick(&[Act::Tanh, Act::Sigmoid, Act::Leaky, Act::Relu]) };
     let mut layers = Vec::new();
     let depth = rng.range(3, 6);
     // in most stacks a wide margin is followed by a narrower one on a padded tensor of the same
@@ -193,7 +201,7 @@ impl Monitor for C05 {
         vec![("miri", 1), ("schedules", tier.pick(24, 600)), ("wide", tier.pick(4, 40)), ("stacks", tier.pick(8, 200)), ("images", tier.pick(6, 120))]
     }
     fn rule(&self) -> &'static str {
-        "case = a network with every layer kind and 1..4 channels (convolution, feedback block of convolution+deconvolution, deconvolution, max-pool, five dense layers, a skip connection across the block, two skip connections sharing their source, a loop connection over a dense layer, dropout on random layers), 24..64 training samples, batch 1..32, 2 epochs with 150..300 or 500..1300 validation inputs (2..21 chunks of 64, not a multiple of 64), followed by validate() and predict_batch() on the same inputs. The identical call is executed in a 1-thread pool without delays (reference) and in dedicated rayon pools of 2, 3, 4, 7, 16, 33 and 64 threads with the delay injector armed (random 0..300 us stalls at the entry of every per-sample forward pass, two delay seeds per pool size), plus once in an 8-thread pool while 16 busy threads starve the machine, plus a repetition of the reference. Every output - per-epoch train/validation loss and accuracy, all final weights, the validate() result, every predict_batch() output in order - must be bit-identical to the reference. Evidence that schedules differed: per training group the sample->worker assignment and the order in which the per-sample tasks started, taken from the event log; distinct = distinct (case, assignment/start-order) schedules observed. stacks: the same protocol on stacks of 3..6 convolutions / deconvolutions with 1..5 input channels and 1..5 filters each (more channels than filters, as many, fewer), kernels 1 or 3 and paddings 0..2 per layer (consecutive layers work on intermediate tensors of equal shape with different margins), max-pool, two dense layers. wide: the same protocol on networks whose dense layers have 4096..8200 inputs or outputs. images: stacks that END in a convolution with 5..12 filters (image-shaped predictions and targets, so the objective sums over channels), trained without validation data (validate() needs a dense output layer) and evaluated by predict_batch(). Miri leg: /verif/miri under -Zmiri-many-seeds (4 seeds quick, 32 thorough): every seed must print the same bit patterns and Miri must report no undefined behaviour or data race."
+        "case = a network with every layer kind and 1..4 channels (convolution, feedback block of convolution+deconvolution, deconvolution, max-pool, five dense layers, a skip connection across the block, two skip connections sharing their source, a loop connection over a dense layer, dropout on random layers), 24..64 training samples, batch 1..32, 2 epochs with 150..300 or 500..1300 validation inputs (2..21 chunks of 64, not a multiple of 64), followed by validate() and predict_batch() on the same inputs. The identical call is executed in a 1-thread pool without delays (reference) and in dedicated rayon pools of 2, 3, 4, 7, 16, 33 and 64 threads with the delay injector armed (random 0..300 us stalls at the entry of every per-sample forward pass, two delay seeds per pool size), plus once in an 8-thread pool while 16 busy threads starve the machine, plus a repetition of the reference. Every output - per-epoch train/validation loss and accuracy, all final weights, the validate() result, every predict_batch() output in order - must be bit-identical to the reference. Evidence that schedules differed: per training group the sample->worker assignment and the order in which the per-sample tasks started, taken from the event log; distinct = distinct (case, assignment/start-order) schedules observed. stacks: the same protocol on stacks of 3..6 convolutions / deconvolutions with 1..5 input channels and 1..5 filters each (more channels than filters, as many, fewer), kernels 1 or 3, paddings 0..2 and any activation incl. soft-max per layer (consecutive layers work on intermediate tensors of equal shape with different margins), max-pool, two dense layers. wide: the same protocol on networks whose dense layers have 4096..8200 inputs or outputs. images: stacks that END in a convolution with 5..12 filters (image-shaped predictions and targets, so the objective sums over channels), trained without validation data (validate() needs a dense output layer) and evaluated by predict_batch(). Miri leg: /verif/miri under -Zmiri-many-seeds (4 seeds quick, 32 thorough): every seed must print the same bit patterns and Miri must report no undefined behaviour or data race."
     }
     fn assumptions(&self) -> Vec<&'static str> {
         vec![
@@ -216,7 +224,7 @@ impl Monitor for C05 {
                 NetCfg::plain(Sh::Flat(6), vec![LCfg::Dense { n: big, act: Act::Tanh, bias: true, dropout: None }, LCfg::Dense { n: 2, act: Act::Linear, bias: true, dropout: None }])
             }
         } else if gen == "stacks" {
-            let c = stack_net(&mut rng);
+            let c = stack_net_with(&mut rng, true);
             if c.shapes().is_err() {
                 let mut out = Out::new("invalid stack".into());
                 out.nontrivial = false;
@@ -226,7 +234,7 @@ impl Monitor for C05 {
         } else if gen == "images" {
             // a stack that ENDS in a spatial layer with 5..12 filters: predictions, targets and
             // the objective's per-sample sums are image-shaped
-            let mut c = stack_net(&mut rng);
+            let mut c = stack_net_with(&mut rng, true);
             // drop the pool / dense tail of the stack
             while matches!(c.layers.last(), Some(LCfg::Dense { .. }) | Some(LCfg::Pool { .. })) {
                 c.layers.pop();
